@@ -110,7 +110,16 @@ pub fn exec(case: &[i64]) -> Outcome {
   let n = take1(&mut v).unwrap(); let mut svc = Vec::new(); for _ in 0..n { let u = take_u(&mut v); let x = take1(&mut v).unwrap(); svc.push(svc_json(u, x)); }
   let nq = take1(&mut v).unwrap(); let mut queries = Vec::new(); for _ in 0..nq { queries.push((take1(&mut v).unwrap(), take1(&mut v).unwrap())); }
   let j = json!({"id": DIDS[1], "verificationMethod": vm, "authentication": rels[0], "assertionMethod": rels[1], "keyAgreement": rels[2], "capabilityDelegation": rels[3], "capabilityInvocation": rels[4], "service": svc});
-  let mut doc = match CoreDocument::from_json(&j.to_string()) { Ok(d) => d, Err(_) => return Outcome::new(vec![0]).class("start-rejected").trivial() };
+  // the builder is a second acceptance route: it must accept exactly the documents deserialisation accepts, and build an equal document
+  let via_builder: Option<CoreDocument> = (|| {
+    let mut b = CoreDocument::builder(Default::default()).id(DIDS[1].parse().ok()?);
+    for m in &vm { b = b.verification_method(serde_json::from_value(m.clone()).ok()?); }
+    for (k, l) in rels.iter().enumerate() { for e in l { let r: MethodRef = serde_json::from_value(e.clone()).ok()?;
+      b = match k { 0 => b.authentication(r), 1 => b.assertion_method(r), 2 => b.key_agreement(r), 3 => b.capability_delegation(r), _ => b.capability_invocation(r) }; } }
+    for sv in &svc { b = b.service(serde_json::from_value(sv.clone()).ok()?); }
+    b.build().ok() })();
+  let mut doc = match CoreDocument::from_json(&j.to_string()) { Ok(d) => d, Err(_) => { let o = Outcome::new(vec![0]).class("start-rejected"); return if via_builder.is_some() { o.fail("DocumentBuilder::build accepts a document that deserialisation rejects") } else { o.trivial() }; } };
+  match &via_builder { None => return Outcome::new(vec![1]).class("start-routes-disagree").fail("DocumentBuilder::build rejects a document that deserialisation accepts"), Some(b) => if *b != doc { return Outcome::new(vec![1]).class("start-routes-disagree").fail("builder and deserialisation give different documents"); } }
   let mut obs = vec![1]; let mut why: Option<String> = None; let mut known = false;
   after(&doc, &queries, &mut obs, &mut why, &mut known);
   let (mut refused, mut changed) = (false, false);
@@ -211,6 +220,18 @@ pub fn gen(rng: &mut Rng, thorough: bool, sink: &mut Sink) {
   bad.push(Start { vm: vec![(u(1, 0, 1), 3), (u(1, 1, 1), 4)], rels: e(), svc: vec![] });
   bad.push(Start { vm: vec![(u(1, 1, 1), 4), (u(1, 0, 1), 3)], rels: e(), svc: vec![] });
   for b in &bad { sink.case(enc_start(b, &QUERIES), "gate"); }
+  // the whole collision table: one id in any two of the twelve places (general-purpose, embedded in each relationship, referenced from each relationship, service),
+  // alone and next to an unrelated method; then a third place at random
+  let place = |st: &mut Start, p: usize, id: U, data: i64| { match p { 0 => st.vm.push((id, data)), 1..=5 => st.rels[p - 1].push((true, id, data)), 6..=10 => st.rels[p - 6].push((false, id, -1)), _ => st.svc.push((id, data)) } };
+  for a in 0..12usize { for b in a..12usize { for extra in [false, true] {
+    let mut st = Start { vm: vec![], rels: e(), svc: vec![] };
+    if extra { st.vm.push((u(1, 0, 2), 7)); }
+    place(&mut st, a, u(1, 0, 1), 1); place(&mut st, b, u(1, 0, 1), 2);
+    sink.case(enc_start(&st, &QUERIES[..3]), "gate-table");
+    if thorough || (a + b) % 3 == 0 { let mut st3 = st.clone(); place(&mut st3, rng.below(12) as usize, u(1, 0, 1), 3); sink.case(enc_start(&st3, &QUERIES[..3]), "gate-table-3"); }
+    // same fragment under another DID is a different id: must be accepted wherever a single use is
+    let mut st2 = Start { vm: vec![], rels: e(), svc: vec![] }; place(&mut st2, a, u(1, 0, 1), 1); place(&mut st2, b, u(2, 0, 1), 2); sink.case(enc_start(&st2, &QUERIES[..3]), "gate-table-distinct");
+  } } }
   // random walks
   let n = if thorough { 20000 } else { 1500 };
   let sts = starts();
